@@ -1,14 +1,28 @@
 /-
   C09 — Fee distributor: epoch ledgers balance and no epoch is paid twice.
 
-  Theorems about `WW.Model.Distributor` (one distribution asset over the history — the assumption of
-  the model, see its header).  The collector's inflow per new epoch, the lair's weight share per
-  (address, epoch) and the lair's `first_bonded_epoch_id` are arbitrary parameters of the operations:
-  every theorem below holds for all of them.  Histories are arbitrary lists of operations
-  (`NewEpoch` / `Claim` by anybody / `UpdateConfig{grace_period}` / token gifts), failed operations leave
-  the state unchanged; bonding and unbonding act on the lair only and do not touch the ledger.
+  Theorems about `WW.Model.Distributor` with MULTI-ASSET epoch ledgers: the distribution asset is part of
+  the state and the owner may switch it in mid-history (op `setDist` = `UpdateConfig { distribution_asset }`),
+  so an epoch created after a switch receives its inflow in the new asset AND the unclaimed remainder of
+  the expiring epoch in the old one; `total / available / claimed` are the `Vec<Asset>` of the Rust
+  (association lists in vector order), every statement below is PER ASSET (`amtOf a`, `sumAvail a`, …).
+  The collector's inflow per new epoch (in whatever the distribution asset is at that moment), the lair's
+  weight share per (address, epoch) and the lair's `first_bonded_epoch_id` are arbitrary parameters of the
+  operations: every theorem below holds for all of them.  Histories are arbitrary lists of operations
+  (`NewEpoch` / `Claim` by anybody / `UpdateConfig{grace_period}` / `UpdateConfig{distribution_asset}` /
+  token gifts in any asset), failed operations leave the state unchanged; bonding and unbonding act on
+  the lair only and do not touch the ledger.
   `joint_histories` restates the history invariants over the joint machine of the `feeflow` engine, whose
   alphabet contains every entry point the engine sends (also direct `CollectFees` / `AggregateFees`).
+
+  FINDING (`epoch_ledger_per_asset_fails`).  The clause "claimed + available = total for each asset" is
+  FALSE in the code for an epoch that holds several assets: `claim` creates `epoch.claimed` from the first
+  asset it pays and afterwards only increases entries that exist, so rewards in the epoch's other assets
+  are paid and subtracted from `available` but never recorded as claimed.  What does hold, and is proved
+  (`epoch_ledger`): for EVERY asset `claimed + available ≤ total` and nothing is lost on the funds side
+  (`payout_eq_ledger_delta`, `holds_available`, `expire_once`); the equation holds for the asset that
+  `claimed` records, for every asset while nothing has been claimed, and for every epoch that holds at
+  most one asset (= every epoch of a history without a switch of the distribution asset).
 -/
 import WW.Proofs.Distributor
 import WW.Proofs.Collector
@@ -18,33 +32,69 @@ open WW WW.Distributor
 /-- a record of `s'` that is not a record of `s`: an epoch the operation modified -/
 def Changed (s s' : St) (e : Epoch) : Prop := e ∈ s'.epochs ∧ e ∉ s.epochs
 
-/-- **epoch_ledger** — over ALL histories from instantiation (any grace period ≥ 1, with increases
-    mid-history), every epoch whose `available` has not been emptied by expiry satisfies
-    `claimed + available = total`. -/
-theorem epoch_ledger (cfg : Cfg) (g : Nat) (hg : 1 ≤ g) (ops : List Op) :
-    ∀ e ∈ (reach cfg (St.init g) ops).epochs, e.avail.isSome = true →
-      amt e.claimed + amt e.avail = amt e.total :=
-  fun e he => (reach_inv cfg ops _ (inv_init g hg)).ledger e he
+/-- the ledger clause as proved, for one epoch and one asset -/
+def LedgerClause (e : Epoch) (a : Nat) : Prop :=
+  amtOf a e.claimed + amtOf a e.avail ≤ amtOf a e.total ∧
+  ((e.claimed = [] ∨ a ∈ keys e.claimed ∨ e.total.length ≤ 1) →
+    amtOf a e.claimed + amtOf a e.avail = amtOf a e.total)
+
+theorem ledgerClause_of_ok {e : Epoch} (h : LedgerOk e) (hne : e.avail ≠ []) (a : Nat) : LedgerClause e a := by
+  obtain ⟨_, hc⟩ := h hne
+  refine ⟨hc.2 a, fun hh => ?_⟩
+  cases hh with
+  | inl h0 => exact claimedOk_recorded hc a (Or.inl h0)
+  | inr hh =>
+    cases hh with
+    | inl h1 => exact claimedOk_recorded hc a (Or.inr h1)
+    | inr h2 => exact claimedOk_single hc h2 a
+
+/-- **epoch_ledger** — over ALL histories from instantiation (any grace period ≥ 1 with increases, any
+    initial distribution asset with switches in mid-history), for every epoch whose `available` has not
+    been emptied by expiry and for EVERY asset `a`: `claimed_a + available_a ≤ total_a`, with equality
+    whenever nothing has been claimed from the epoch yet, or `a` is the asset its `claimed` records, or the
+    epoch holds at most one asset.  Moreover every asset is listed at most once in `available`. -/
+theorem epoch_ledger (cfg : Cfg) (g d : Nat) (hg : 1 ≤ g) (ops : List Op) :
+    ∀ e ∈ (reach cfg (St.init g d) ops).epochs, e.avail ≠ [] →
+      (keys e.avail).Nodup ∧ ∀ a, LedgerClause e a :=
+  fun e he hne =>
+    ⟨((reach_inv cfg ops _ (inv_init g d hg)).ledger e he hne).1,
+     ledgerClause_of_ok ((reach_inv cfg ops _ (inv_init g d hg)).ledger e he) hne⟩
 
 /-- the same from any state that satisfies the invariant (e.g. a migrated deployment) -/
 theorem epoch_ledger_from (cfg : Cfg) (s : St) (hI : Inv s) (ops : List Op) :
-    ∀ e ∈ (reach cfg s ops).epochs, e.avail.isSome = true → amt e.claimed + amt e.avail = amt e.total :=
-  fun e he => (reach_inv cfg ops s hI).ledger e he
+    ∀ e ∈ (reach cfg s ops).epochs, e.avail ≠ [] → ∀ a, LedgerClause e a :=
+  fun e he hne => ledgerClause_of_ok ((reach_inv cfg ops s hI).ledger e he) hne
+
+/-- **epoch_ledger, single-asset epochs** — the clause at full strength, "claimed + available = total for
+    each asset", for every live epoch that holds at most one asset. -/
+theorem epoch_ledger_single_asset (cfg : Cfg) (g d : Nat) (hg : 1 ≤ g) (ops : List Op) :
+    ∀ e ∈ (reach cfg (St.init g d) ops).epochs, e.avail ≠ [] → e.total.length ≤ 1 →
+      ∀ a, amtOf a e.claimed + amtOf a e.avail = amtOf a e.total :=
+  fun e he hne h1 a => ((epoch_ledger cfg g d hg ops e he hne).2 a).2 (Or.inr (Or.inr h1))
+
+/-- the clause of the property as stated, at full strength for every asset of every live epoch -/
+def EpochLedgerPerAsset : Prop :=
+  ∀ (cfg : Cfg) (g d : Nat), 1 ≤ g → ∀ (ops : List Op), ∀ e ∈ (reach cfg (St.init g d) ops).epochs,
+    e.avail ≠ [] → ∀ a, amtOf a e.claimed + amtOf a e.avail = amtOf a e.total
 
 /-- **expire_once** (the step) — when a new epoch is created: the epoch that leaves the grace window
     (position `grace-1` of the newest-first list, if there are that many) hands over exactly its
-    `available` to the new epoch, its own `available` becomes empty, no other epoch is touched, and the
-    sum of all `available` grows by exactly the inflow (nothing is lost, nothing is counted twice). -/
+    `available` — in EVERY asset, whatever the distribution asset is now — to the new epoch, which in
+    addition receives the inflow in the current distribution asset; the expiring epoch's `available`
+    becomes empty, it keeps id / start / total / claimed, no other epoch is touched, and per asset the sum
+    of all `available` and the balance grow by exactly the inflow (nothing is lost, nothing counted twice). -/
 theorem expire_once (cfg : Cfg) (s s' : St) (now : Nat) (inflow : Option Nat)
     (h : newEpoch cfg s now inflow = .ok s') :
     ∃ new rest, s'.epochs = new :: rest ∧
-      amt new.total = amt inflow + amt ((s.epochs[s.grace - 1]?).bind (·.avail)) ∧
-      new.avail = new.total ∧ new.claimed = none ∧
-      (rest[s.grace - 1]?).bind (·.avail) = none ∧
+      (∀ a, amtOf a new.total = sel s.dist a (amt inflow) + amtOf a (availAt s.epochs (s.grace - 1))) ∧
+      new.avail = new.total ∧ new.claimed = [] ∧
+      availAt rest (s.grace - 1) = [] ∧
       (∀ j, j ≠ s.grace - 1 → rest[j]? = s.epochs[j]?) ∧
-      rest.map (·.id) = s.epochs.map (·.id) ∧
-      sumAvail s'.epochs = sumAvail s.epochs + amt inflow ∧
-      s'.bal = s.bal + amt inflow := by
+      rest.map (fun e => (e.id, e.start, e.total, e.claimed)) =
+        s.epochs.map (fun e => (e.id, e.start, e.total, e.claimed)) ∧
+      (∀ a, sumAvail a s'.epochs = sumAvail a s.epochs + sel s.dist a (amt inflow)) ∧
+      (∀ a, s'.bal a = s.bal a + sel s.dist a (amt inflow)) ∧
+      s'.dist = s.dist ∧ s'.grace = s.grace := by
   unfold newEpoch at h
   cases hn : nextEpoch cfg s now with
   | err => rw [hn] at h; simp at h
@@ -54,66 +104,99 @@ theorem expire_once (cfg : Cfg) (s s' : St) (now : Nat) (inflow : Option Nat)
     rw [hn] at h; simp only at h
     obtain ⟨_, tot, hagg, hs'⟩ := receiveEpoch_spec h
     subst hs'
-    refine ⟨_, _, rfl, ?_, rfl, rfl, takeOut_at _ _, takeOut_others _ _, takeOut_ids _ _, ?_, rfl⟩
-    · rw [← takeOut_rolled]; exact aggOpt_amt hagg
-    · have h1 := takeOut_sum (s.grace - 1) s.epochs
-      have h2 := aggOpt_amt hagg
+    obtain ⟨hamt, _⟩ := agg_spec _ _ _ hagg
+    refine ⟨_, _, rfl, fun a => ?_, rfl, rfl, takeOut_at _ _, takeOut_others _ _, takeOut_keeps _ _,
+      fun a => ?_, fun a => addAt_apply _ _ _ _, rfl, rfl⟩
+    · rw [← takeOut_rolled, ← amtOf_inflowLedger]; exact hamt a
+    · have h1 := takeOut_sum a (s.grace - 1) s.epochs
+      have h2 := hamt a
+      rw [amtOf_inflowLedger] at h2
       simp only [sumAvail]
       omega
 
 /-- **expire_once** (the invariant) — in every reachable state every epoch outside the grace window
-    has an empty `available`: what an expired epoch held has been moved, and (being empty) can never be
-    moved or claimed again — also after the grace period was increased. -/
-theorem expired_stay_empty (cfg : Cfg) (g : Nat) (hg : 1 ≤ g) (ops : List Op) :
-    let s := reach cfg (St.init g) ops
-    ∀ e ∈ s.epochs.drop s.grace, e.avail = none :=
-  (reach_inv cfg ops _ (inv_init g hg)).outside
+    has an empty `available` (no asset left): what an expired epoch held has been moved, and (being
+    empty) can never be moved or claimed again — also after the grace period was increased or the
+    distribution asset switched. -/
+theorem expired_stay_empty (cfg : Cfg) (g d : Nat) (hg : 1 ≤ g) (ops : List Op) :
+    let s := reach cfg (St.init g d) ops
+    ∀ e ∈ s.epochs.drop s.grace, e.avail = [] :=
+  (reach_inv cfg ops _ (inv_init g d hg)).outside
 
-/-- **holds_available** — over all histories the distributor's balance covers the sum of all epochs'
-    `available` amounts. -/
-theorem holds_available (cfg : Cfg) (g : Nat) (hg : 1 ≤ g) (ops : List Op) :
-    sumAvail (reach cfg (St.init g) ops).epochs ≤ (reach cfg (St.init g) ops).bal :=
-  (reach_inv cfg ops _ (inv_init g hg)).holds
+/-- **holds_available** — over all histories, for every asset, the distributor's balance covers the sum
+    of all epochs' `available` amounts in that asset. -/
+theorem holds_available (cfg : Cfg) (g d : Nat) (hg : 1 ≤ g) (ops : List Op) (a : Nat) :
+    sumAvail a (reach cfg (St.init g d) ops).epochs ≤ (reach cfg (St.init g d) ops).bal a :=
+  (reach_inv cfg ops _ (inv_init g d hg)).holds a
+
+/-- **switching the distribution asset** is the owner's, and touches no ledger, no balance, no claim
+    cursor and not the grace period: every epoch keeps what it holds, in the asset it holds it in. -/
+theorem dist_switch_touches_no_ledger (cfg : Cfg) (s s' : St) (sender a : Nat)
+    (h : setDist cfg s sender a = .ok s') :
+    sender = cfg.owner ∧ s'.dist = a ∧ s'.epochs = s.epochs ∧ s'.bal = s.bal ∧ s'.last = s.last ∧
+    s'.grace = s.grace := by
+  obtain ⟨hs', ho⟩ := setDist_spec h
+  subst hs'
+  exact ⟨ho, rfl, rfl, rfl, rfl, rfl⟩
 
 /-- **all entry points** — the three history invariants above, over ALL histories of the JOINT machine
-    (`WW.Model.Feeflow`): besides the distributor's own operations these contain everything the other
-    contracts of the fee pipeline accept in mid-history — `CollectFees` / `AggregateFees` sent to the
-    collector directly by anybody, `ForwardFees` attempts, collector configuration, trades, flash loans,
-    route and pair administration, bonding.  Each of them either is a distributor operation or leaves the
-    ledger untouched (`Feeflow.step_projects`). -/
+    (`WW.Model.Feeflow`): besides the distributor's own operations (including the switch of the
+    distribution asset) these contain everything the other contracts of the fee pipeline accept in
+    mid-history — `CollectFees` / `AggregateFees` sent to the collector directly by anybody, `ForwardFees`
+    attempts, collector configuration, trades, flash loans, route and pair administration, bonding.  Each
+    of them either is a distributor operation or leaves the ledger untouched (`Feeflow.step_projects`). -/
 theorem joint_histories (cfg : Feeflow.Cfg) (s : Feeflow.St) (hI : Inv s.d) (ops : List Feeflow.Op) :
     let s' := Feeflow.reach cfg s ops
-    (∀ e ∈ s'.d.epochs, e.avail.isSome = true → amt e.claimed + amt e.avail = amt e.total) ∧
-    (∀ e ∈ s'.d.epochs.drop s'.d.grace, e.avail = none) ∧
-    sumAvail s'.d.epochs ≤ s'.d.bal := by
+    (∀ e ∈ s'.d.epochs, e.avail ≠ [] → ∀ a, LedgerClause e a) ∧
+    (∀ e ∈ s'.d.epochs.drop s'.d.grace, e.avail = []) ∧
+    (∀ a, sumAvail a s'.d.epochs ≤ s'.d.bal a) := by
   obtain ⟨dops, hd⟩ := Feeflow.reach_projects cfg ops s
   simp only
   rw [hd]
   have hI' := reach_inv cfg.d dops s.d hI
-  exact ⟨fun e he => hI'.ledger e he, hI'.outside, hI'.holds⟩
+  exact ⟨fun e he hne => ledgerClause_of_ok (hI'.ledger e he) hne, hI'.outside, hI'.holds⟩
 
-/-- **payout_eq_ledger_delta** — a successful claim pays exactly what the ledgers lose: the sum of
-    `available` falls by the payout, the sum of `claimed` rises by it, the contract balance falls by it,
-    and no epoch is added or removed. -/
-theorem payout_eq_ledger_delta (s s' : St) (u : Nat) (view : Option Nat) (ans : Nat → LairAns) (paid : Nat)
-    (h : claim s u view ans = .ok (s', paid)) :
-    paid + sumAvail s'.epochs = sumAvail s.epochs ∧
-    sumClaimed s'.epochs = sumClaimed s.epochs + paid ∧
-    s'.bal + paid = s.bal ∧
-    s'.epochs.map (·.id) = s.epochs.map (·.id) ∧ s'.grace = s.grace := by
-  obtain ⟨b, top, rest, es', _, _, hw, hle, hs'⟩ := claim_spec h
-  obtain ⟨_, i2, i3, i4, _, _, _, _⟩ := claimWalk_spec ans b s.grace s.epochs 0 es' paid hw
+/-- **payout_eq_ledger_delta** — a successful claim pays, in every asset, exactly what the ledgers lose:
+    the sum of `available` falls by the payout, the contract balance falls by it, the sum of `claimed`
+    never falls and rises by AT MOST the payout — by exactly the payout when every epoch holds at most one
+    asset (see the finding in the header for the rest) —, and no epoch is added, removed or re-funded. -/
+theorem payout_eq_ledger_delta (s s' : St) (hL : AllLedger s.epochs) (u : Nat) (view : Option Nat)
+    (ans : Nat → LairAns) (paid : Ledger) (h : claim s u view ans = .ok (s', paid)) :
+    (∀ a, amtOf a paid + sumAvail a s'.epochs = sumAvail a s.epochs) ∧
+    (∀ a, sumClaimed a s.epochs ≤ sumClaimed a s'.epochs ∧
+          sumClaimed a s'.epochs ≤ sumClaimed a s.epochs + amtOf a paid) ∧
+    ((∀ e ∈ s.epochs, e.total.length ≤ 1) → ∀ a, sumClaimed a s'.epochs = sumClaimed a s.epochs + amtOf a paid) ∧
+    (∀ a, s'.bal a + amtOf a paid = s.bal a) ∧
+    (keys paid).Nodup ∧
+    s'.epochs.map (·.id) = s.epochs.map (·.id) ∧ s'.epochs.map (·.total) = s.epochs.map (·.total) ∧
+    s'.grace = s.grace ∧ s'.dist = s.dist := by
+  obtain ⟨b, top, rest, es', bal', _, _, hw, hp, hs'⟩ := claim_spec h
+  obtain ⟨i1, i2, i3, i3', i4, _, i5', _, _, _, i9⟩ := claimWalk_spec ans b s.grace s.epochs [] es' paid hL hw
   subst hs'
-  refine ⟨by simp only; omega, by simp only; omega, by simp only; omega, i4, rfl⟩
+  refine ⟨fun a => ?_, fun a => ⟨i2 a, ?_⟩, fun h1 a => ?_, fun a => payAll_spec _ _ _ hp a,
+    i9 (by simp [keys]), i4, i5', rfl, rfl⟩
+  · have := i1 a; simp only [amtOf] at this; simp only; omega
+  · have := i3 a; simp only [amtOf] at this; simp only; omega
+  · have := i3' h1 a; simp only [amtOf] at this; simp only; omega
+
+/-- the same over all histories from instantiation (where the hypothesis on the ledgers always holds) -/
+theorem payout_eq_ledger_delta_hist (cfg : Cfg) (g d : Nat) (hg : 1 ≤ g) (ops : List Op) (u : Nat)
+    (view : Option Nat) (ans : Nat → LairAns) (s' : St) (paid : Ledger)
+    (h : claim (reach cfg (St.init g d) ops) u view ans = .ok (s', paid)) (a : Nat) :
+    amtOf a paid + sumAvail a s'.epochs = sumAvail a (reach cfg (St.init g d) ops).epochs ∧
+    s'.bal a + amtOf a paid = (reach cfg (St.init g d) ops).bal a ∧
+    sumClaimed a s'.epochs ≤ sumClaimed a (reach cfg (St.init g d) ops).epochs + amtOf a paid := by
+  have hp := payout_eq_ledger_delta _ s' (reach_inv cfg ops _ (inv_init g d hg)).ledger u view ans paid h
+  exact ⟨hp.1 a, hp.2.2.2.1 a, (hp.2.1 a).2⟩
 
 /-- every epoch a claim modifies lies strictly above the address's bound (its last claimed epoch, else
     the epoch it first bonded in) and at or below its new last-claimed epoch -/
 theorem claim_changes_above_bound (s s' : St) (hI : Inv s) (u : Nat) (view : Option Nat)
-    (ans : Nat → LairAns) (paid : Nat) (h : claim s u view ans = .ok (s', paid)) :
+    (ans : Nat → LairAns) (paid : Ledger) (h : claim s u view ans = .ok (s', paid)) :
     ∃ b top, claimBound s u view = some b ∧ lookup u s'.last = some top ∧
       ∀ e, Changed s s' e → b < e.id ∧ e.id ≤ top := by
-  obtain ⟨b, top, rest, es', hb, hcl, hw, _, hs'⟩ := claim_spec h
-  obtain ⟨_, _, _, _, _, _, _, i8⟩ := claimWalk_spec ans b s.grace s.epochs 0 es' paid hw
+  obtain ⟨b, top, rest, es', bal', hb, hcl, hw, _, hs'⟩ := claim_spec h
+  obtain ⟨_, _, _, _, _, _, _, _, _, i8, _⟩ := claimWalk_spec ans b s.grace s.epochs [] es' paid hI.ledger hw
   subst hs'
   refine ⟨b, top, hb, lookup_setLast_same _ _ _, ?_⟩
   intro e he
@@ -121,13 +204,13 @@ theorem claim_changes_above_bound (s s' : St) (hI : Inv s) (u : Nat) (view : Opt
   | inl hin => exact absurd hin he.2
   | inr hr => exact ⟨hr.1, claimableIds_le_head b s.grace s.epochs hI.desc top rest hcl e.id hr.2⟩
 
-/-- **once_per_epoch** — an address is paid at most once per epoch: if a claim by `u` modified (paid
-    from) epoch `e₁`, then after ANY further history a later successful claim by `u` only modifies epochs
-    with a strictly larger id. -/
+/-- **once_per_epoch** — an address is paid at most once per epoch (in any asset): if a claim by `u`
+    modified (paid from) epoch `e₁`, then after ANY further history — including switches of the
+    distribution asset — a later successful claim by `u` only modifies epochs with a strictly larger id. -/
 theorem once_per_epoch (cfg : Cfg) (s s₁ : St) (hI : Inv s) (u : Nat)
-    (view₁ : Option Nat) (ans₁ : Nat → LairAns) (paid₁ : Nat) (h₁ : claim s u view₁ ans₁ = .ok (s₁, paid₁))
+    (view₁ : Option Nat) (ans₁ : Nat → LairAns) (paid₁ : Ledger) (h₁ : claim s u view₁ ans₁ = .ok (s₁, paid₁))
     (ops : List Op)
-    (view₂ : Option Nat) (ans₂ : Nat → LairAns) (s₃ : St) (paid₂ : Nat)
+    (view₂ : Option Nat) (ans₂ : Nat → LairAns) (s₃ : St) (paid₂ : Ledger)
     (h₂ : claim (reach cfg s₁ ops) u view₂ ans₂ = .ok (s₃, paid₂)) :
     ∀ e₁, Changed s s₁ e₁ → ∀ e₃, Changed (reach cfg s₁ ops) s₃ e₃ → e₁.id < e₃.id := by
   intro e₁ he₁ e₃ he₃
@@ -145,7 +228,7 @@ theorem once_per_epoch (cfg : Cfg) (s s₁ : St) (hI : Inv s) (u : Nat)
 /-- **not_before_bonding** (ids) — an address that has never claimed is only paid for epochs after the
     one the lair reports as its first bonded epoch; an address that has neither claimed nor bonded gets
     nothing. -/
-theorem not_before_bonding (s s' : St) (hI : Inv s) (u fb : Nat) (ans : Nat → LairAns) (paid : Nat)
+theorem not_before_bonding (s s' : St) (hI : Inv s) (u fb : Nat) (ans : Nat → LairAns) (paid : Ledger)
     (hnever : lookup u s.last = none) (h : claim s u (some fb) ans = .ok (s', paid)) :
     ∀ e, Changed s s' e → fb < e.id := by
   obtain ⟨b, top, hb, _, hc⟩ := claim_changes_above_bound s s' hI u (some fb) ans paid h
@@ -163,21 +246,21 @@ theorem never_bonded_gets_nothing (s : St) (u : Nat) (ans : Nat → LairAns)
 /-- **not_before_bonding** (times) — with the lair's definition of the first bonded epoch
     (`calculate_epoch`: the bond time lies before `genesis + fb·duration`), over all histories from
     instantiation every epoch paid to a never-claimed address started strictly after it bonded. -/
-theorem not_before_bonding_time (cfg : Cfg) (g : Nat) (hg : 1 ≤ g) (ops : List Op) (u fb bondTime : Nat)
+theorem not_before_bonding_time (cfg : Cfg) (g d : Nat) (hg : 1 ≤ g) (ops : List Op) (u fb bondTime : Nat)
     (hlair : bondTime < cfg.genesis + fb * cfg.duration)
-    (ans : Nat → LairAns) (s' : St) (paid : Nat)
-    (hnever : lookup u (reach cfg (St.init g) ops).last = none)
-    (h : claim (reach cfg (St.init g) ops) u (some fb) ans = .ok (s', paid)) :
-    ∀ e, Changed (reach cfg (St.init g) ops) s' e → bondTime < e.start := by
+    (ans : Nat → LairAns) (s' : St) (paid : Ledger)
+    (hnever : lookup u (reach cfg (St.init g d) ops).last = none)
+    (h : claim (reach cfg (St.init g d) ops) u (some fb) ans = .ok (s', paid)) :
+    ∀ e, Changed (reach cfg (St.init g d) ops) s' e → bondTime < e.start := by
   intro e he
-  have hI := reach_inv cfg ops _ (inv_init g hg)
+  have hI := reach_inv cfg ops _ (inv_init g d hg)
   have hid := not_before_bonding _ s' hI u fb ans paid hnever h e he
-  have hN : Nominal cfg (reach cfg (St.init g) ops).epochs :=
-    reach_nominal cfg ops _ (by intro x hx; cases hx)
+  have hN : Nominal cfg (reach cfg (St.init g d) ops).epochs :=
+    reach_nominal cfg ops _ (inv_init g d hg) (by intro x hx; cases hx)
   have hN' : Nominal cfg s'.epochs := by
-    have hstep : step cfg (reach cfg (St.init g) ops) (.claim u (some fb) ans) = .ok s' := by
+    have hstep : step cfg (reach cfg (St.init g d) ops) (.claim u (some fb) ans) = .ok s' := by
       simp only [step, h]
-    exact step_nominal hN hstep
+    exact step_nominal hI hN hstep
   obtain ⟨_, hst⟩ := hN' e he.1
   rw [hst]
   have : fb * cfg.duration ≤ (e.id - 1) * cfg.duration := Nat.mul_le_mul_right _ (by omega)
@@ -201,32 +284,68 @@ theorem grace_bounds (cfg : Cfg) (s s' : St) (sender g : Nat) (h : updateGrace c
         have : WW.Gen.DISTRIBUTOR_MAX_GRACE_PERIOD = 30 := by decide
         refine ⟨rfl, by omega, by omega, by omega, Classical.not_not.mp hs⟩
 
-/-! ### non-vacuity: a concrete history on the model -/
+/-! ### non-vacuity: concrete histories on the model -/
 
 def cfg0 : Cfg := { genesis := 1000, duration := 100, owner := 7 }
 def half : Nat → LairAns := fun _ => .share 500000000000000000
 def third : Nat → LairAns := fun _ => .share 333333333333333333
 
-/-- grace 2: epoch 1 receives 1000, user 1 (first bonded epoch 0) claims half of it; epoch 2 receives 301;
-    user 2 claims a third of both; epoch 3 is created with inflow 50: epoch 1 leaves the window and its
-    remainder 167 is added to epoch 3 exactly once (total 217) and its own `available` is emptied;
-    the grace period is raised to 3 and epoch 4 created: epoch 1 is inside the window again but empty, so
-    nothing is rolled a second time (total 9). -/
+/-- ONE asset (2) throughout. grace 2: epoch 1 receives 1000, user 1 (first bonded epoch 0) claims half of
+    it; epoch 2 receives 301; user 2 claims a third of both; epoch 3 is created with inflow 50: epoch 1
+    leaves the window and its remainder 167 is added to epoch 3 exactly once (total 217) and its own
+    `available` is emptied; the grace period is raised to 3 and epoch 4 created: epoch 1 is inside the window
+    again but empty, so nothing is rolled a second time (total 9). -/
 def hist0 : List Op :=
   [ .newEpoch 1000 (some 1000), .claim 1 (some 0) half, .newEpoch 1100 (some 301), .claim 2 (some 0) third,
     .newEpoch 1200 (some 50), .grace 7 3, .newEpoch 1300 (some 9), .claim 1 (some 0) half ]
 
-example : (reach cfg0 (St.init 2) hist0).epochs =
-    [ { id := 4, start := 1300, total := some 9, avail := some 5, claimed := some 4 },
-      { id := 3, start := 1200, total := some 217, avail := some 109, claimed := some 108 },
-      { id := 2, start := 1100, total := some 301, avail := some 51, claimed := some 250 },
-      { id := 1, start := 1000, total := some 1000, avail := none, claimed := some 833 } ] := by decide
+example : (reach cfg0 (St.init 2 2) hist0).epochs =
+    [ { id := 4, start := 1300, total := [(2, 9)], avail := [(2, 5)], claimed := [(2, 4)] },
+      { id := 3, start := 1200, total := [(2, 217)], avail := [(2, 109)], claimed := [(2, 108)] },
+      { id := 2, start := 1100, total := [(2, 301)], avail := [(2, 51)], claimed := [(2, 250)] },
+      { id := 1, start := 1000, total := [(2, 1000)], avail := [], claimed := [(2, 833)] } ] := by decide
 
-example : (reach cfg0 (St.init 2) hist0).bal = 165 ∧ sumAvail (reach cfg0 (St.init 2) hist0).epochs = 165 := by decide
+example : (reach cfg0 (St.init 2 2) hist0).bal 2 = 165 ∧ sumAvail 2 (reach cfg0 (St.init 2 2) hist0).epochs = 165 := by
+  decide
 
 /-- the hypotheses of `once_per_epoch` are satisfiable: two successful claims by the same address -/
-example : ∃ s₁ p₁ s₃ p₃, claim (reach cfg0 (St.init 2) (hist0.take 1)) 1 (some 0) half = .ok (s₁, p₁) ∧ p₁ = 500 ∧
-    claim (reach cfg0 s₁ [.newEpoch 1100 (some 301)]) 1 (some 0) half = .ok (s₃, p₃) ∧ p₃ = 150 := by
+example : ∃ s₁ p₁ s₃ p₃, claim (reach cfg0 (St.init 2 2) (hist0.take 1)) 1 (some 0) half = .ok (s₁, p₁) ∧ p₁ = [(2, 500)] ∧
+    claim (reach cfg0 s₁ [.newEpoch 1100 (some 301)]) 1 (some 0) half = .ok (s₃, p₃) ∧ p₃ = [(2, 150)] := by
   refine ⟨_, _, _, _, rfl, by decide, rfl, by decide⟩
+
+/-- A SWITCH of the distribution asset while an epoch funded in the old asset is inside the grace window.
+    grace 2, asset 2 first: epoch 1 receives 1000 of asset 2, user 1 claims half.  The owner (7) switches to
+    asset 1 (a stranger, 9, is refused).  Epoch 2 receives 300 of asset 1.  Epoch 3 (inflow 40 of asset 1):
+    epoch 1 leaves the window and its 500 of asset 2 are rolled into epoch 3 next to the 40 of asset 1 —
+    nothing drops out of the ledgers.  User 2 then claims half of epochs 3 and 2: paid 170 of asset 1 and
+    250 of asset 2. -/
+def hist1 : List Op :=
+  [ .newEpoch 1000 (some 1000), .claim 1 (some 0) half, .setDist 9 1, .setDist 7 1, .newEpoch 1100 (some 300),
+    .newEpoch 1200 (some 40), .claim 2 (some 0) half ]
+
+example : (reach cfg0 (St.init 2 2) hist1).epochs =
+    [ { id := 3, start := 1200, total := [(1, 40), (2, 500)], avail := [(1, 20), (2, 250)], claimed := [(1, 20)] },
+      { id := 2, start := 1100, total := [(1, 300)], avail := [(1, 150)], claimed := [(1, 150)] },
+      { id := 1, start := 1000, total := [(2, 1000)], avail := [], claimed := [(2, 500)] } ] := by decide
+
+example : (reach cfg0 (St.init 2 2) hist1).dist = 1 ∧
+    (reach cfg0 (St.init 2 2) hist1).bal 1 = 170 ∧ sumAvail 1 (reach cfg0 (St.init 2 2) hist1).epochs = 170 ∧
+    (reach cfg0 (St.init 2 2) hist1).bal 2 = 250 ∧ sumAvail 2 (reach cfg0 (St.init 2 2) hist1).epochs = 250 := by
+  decide
+
+example : ((claim (reach cfg0 (St.init 2 2) (hist1.take 6)) 2 (some 0) half).toOption.map (·.2)) =
+    some [(1, 170), (2, 250)] := by decide
+
+/-- **the finding** — "claimed + available = total for each asset" fails in the code (and therefore in
+    the model, which the correspondence run ties to it) for an epoch holding several assets: after
+    `hist1`, epoch 3 has paid 250 of its 500 of asset 2, but its `claimed` ledger `[(1, 20)]` has no
+    entry for asset 2: 0 + 250 ≠ 500. -/
+theorem epoch_ledger_per_asset_fails : ¬ EpochLedgerPerAsset := by
+  intro h
+  have := h cfg0 2 2 (by decide) hist1
+    { id := 3, start := 1200, total := [(1, 40), (2, 500)], avail := [(1, 20), (2, 250)], claimed := [(1, 20)] }
+    (by decide) (by decide) 2
+  revert this
+  decide
 
 end WW.C09
